@@ -489,6 +489,21 @@ namespace adept {
       using BandEngine<ROW_MAJOR,LDiags,UDiags>::push_rhs;
     };
 
+    // A diagonal matrix is stored identically in row-major and
+    // column-major order (element (i,i) is at i*(offset+1) in both),
+    // so the column-major diagonal engine simply reuses the row-major
+    // one. The generic column-major engine cannot be used here: when
+    // offset is zero (packed storage) the memory location does not
+    // change along a row, so an expression such as Matrix(D.T())
+    // would read the diagonal element at every column.
+    template <>
+    struct BandEngine<COL_MAJOR,0,0> : public BandEngine<ROW_MAJOR,0,0> {
+      std::string long_name() const {
+	return "BandMatrix<COL_MAJOR,LDiags=0,UDiags=0>";
+      }
+      typedef BandEngine<ROW_MAJOR,0,0> transpose_engine;
+    };
+
     // -------------------------------------------------------------------
     // Symmetric matrix storage engine
     // -------------------------------------------------------------------
